@@ -554,6 +554,34 @@ def build(tier, rng):
         v = outcome(ctx.verify, "pw", ho[1])
         g.check(v == ("ok", True), "context-verify-own", "context does not verify its own hash", {"schemes": [fmt, fmt], "hash": ho[1], "outcome": repr(v)})
     groups.append(g)
+
+    # =================================================================================================
+    # 5. "every cost": both ends of each format's documented cost range (no hashing at the top cost: the hasher must be
+    #    constructible, identify / verify low-cost hashes of its format, and flag a record that carries another cost)
+    # =================================================================================================
+    g = Group("cost-range-ends", "libpass hashers: constructor / validate_rounds", "sha256-crypt, sha512-crypt (1000 .. 999999999) and bcrypt, bcrypt-sha256 (4 .. 31): a hasher configured with the lowest and the highest documented cost is constructible (passlib accepts the same ends), verifies a low-cost passlib hash of its format, flags it for update (costs outside the range are not the property's business: libpass' bcrypt hashers only fail when hashing)")
+    ends = {"sha256-crypt": (1000, 999999999, passlib_of["sha256-crypt"] if isinstance(passlib_of.get("sha256-crypt"), type) else None), "sha512-crypt": (1000, 999999999, None), "bcrypt": (4, 31, None), "bcrypt-sha256": (4, 31, None)}
+    import passlib.hash as _PH
+    pl = {"sha256-crypt": _PH.sha256_crypt, "sha512-crypt": _PH.sha512_crypt, "bcrypt": _PH.bcrypt, "bcrypt-sha256": _PH.bcrypt_sha256}
+    for fmt, (lo, hi, _) in ends.items():
+        if fmt not in formats:
+            continue
+        cheap = pl[fmt].using(rounds=lo).hash("pw")
+        for label, cost, want_ok in (("lowest", lo, True), ("highest", hi, True)):
+            g.case((fmt, label))
+            c = (cost, "2b") if fmt in ("bcrypt", "bcrypt-sha256") else cost
+            o = outcome(lib_for, fmt, c)
+            po = outcome(lambda: pl[fmt].using(rounds=cost))
+            wit = {"format": fmt, "cost": cost, "libpass": repr(o)[:160], "passlib": repr(po)[:160]}
+            if want_ok:
+                if not g.check(o[0] == "ok", f"cost-end:{fmt}:{label}", "libpass hasher cannot be configured with a documented end of the cost range", wit):
+                    continue
+                h = o[1]
+                v = outcome(h.verify, cheap, "pw") if fmt not in ("bcrypt", "bcrypt-sha256") else outcome(h.verify, hash=cheap, secret="pw")
+                g.check(v == ("ok", True), f"cost-end-verify:{fmt}:{label}", "hasher at the end of the cost range does not verify a low-cost hash of its format", {**wit, "outcome": repr(v)})
+                u = outcome(h.needs_update, cheap)
+                g.check(u == ("ok", cost != lo), f"cost-end-update:{fmt}:{label}", "update check of a hasher at the end of the cost range is wrong for a lowest-cost hash", {**wit, "outcome": repr(u)})
+    groups.append(g)
     return groups, skipped, host
 
 
